@@ -1,9 +1,28 @@
 use nundb::bo::*;
+use nundb::db_ops::*;
+use futures::channel::mpsc::{channel, Receiver, Sender};
+use std::collections::HashMap;
+use std::sync::Arc;
+fn dbs() -> Arc<Databases> {
+    let (s1, _r1): (Sender<String>, Receiver<String>) = channel(100);
+    let (s2, _r2): (Sender<String>, Receiver<String>) = channel(100);
+    std::mem::forget(_r1); std::mem::forget(_r2);
+    let d = Arc::new(Databases::new("u".into(), "p".into(), "".into(), "".into(), s1, s2, HashMap::new(), 1, true));
+    d.node_state.swap(ClusterRole::Primary as usize, std::sync::atomic::Ordering::Relaxed);
+    d
+}
 fn main() {
-    let db = Database::new(String::from("d"), DatabaseMataData::new(1, ConsensuStrategy::None));
-    db.set_value(&Change::new("k".into(), "5".into(), -1));
-    db.set_value(&Change::new("k".into(), "6".into(), -1));
-    println!("before inc: {:?}", db.get_value("k".into()));
-    let r = db.inc_value("k".into(), 1);
-    println!("inc -> {:?}; after: {:?}", r, db.get_value("k".into()));
+    let dbs = dbs();
+    let db = Database::new("d".into(), DatabaseMataData::new(1, ConsensuStrategy::Arbiter));
+    let (client, _rx) = Client::new_empty_and_receiver();
+    db.register_arbiter(&client);
+    println!("{:?}", set_key_value("k".into(), "a".into(), -1, &db, &dbs));
+    println!("{:?}", set_key_value("k".into(), "b".into(), 5, &db, &dbs));
+    println!("{:?}", set_key_value("k".into(), "c".into(), 1, &db, &dbs)); // conflict
+    let keys = db.list_keys(&"$conflicts".to_string(), true);
+    println!("conflict keys {:?}  k={:?}", keys, db.get_value("k".into()));
+    for k in keys { println!("remove {} -> {:?}", k, remove_key(&k, &db)); }
+    println!("now a second conflicting write:");
+    let r = std::panic::catch_unwind(std::panic::AssertUnwindSafe(|| set_key_value("k".into(), "d".into(), 1, &db, &dbs)));
+    println!("{:?}", r.map_err(|_| "PANIC"));
 }
